@@ -24,8 +24,12 @@ RULE = ("histories of 5-60 events drawn from a weighted grammar over kernel even
 TRUSTED = ["correspondence harness props/C04.py + props/_c04_kernel.py + pv/ (fake /proc tree; os.kill and os.listdir replaced so that "
            "thread ids answer kill(0) and have /proc/<tid>/status but are not listed; psutil._pslinux.open_binary replaced to inject "
            "faults on /proc/<n>/status; props/_c04_sched.py line-level thread scheduler)",
-           "hand-written model coq/C04/Model.v of psutil/__init__.py pids/pid_exists/process_iter/is_running/as_dict(keys) and "
-           "_pslinux.pids/pid_exists, tied to the code by this run only",
+           "hand-written model coq/C04/Model.v of psutil/__init__.py pids/is_running/as_dict(keys), the generator bookkeeping of "
+           "process_iter (suspension at yield, 'finally: _pmap = pmap', cache_clear) and _pslinux.pids/pid_exists/_psposix.pid_exists, "
+           "tied to the code by this run only; the guard chain of psutil.pid_exists, the prologue and the loop body of process_iter "
+           "are translated from the source (props/_c04_gen.py, ast, fail closed -> coq/Gen/C04_Tables.v) and proved equal to the "
+           "model (C04_gen_pid_exists_is_model, C04_gen_prologue_is_model, C04_gen_loop_is_model): trusted there are the translator "
+           "and the interpreters of coq/C04/PyGen.v (set difference, dict.pop, sorted merge, Process(pid), as_dict as in the model)",
            "formats of the procfs root listing and of /proc/<n>/status (Tgid line) in coq/C04/Spec.v; the Name: record printer "
            "k_name_line is compared with the running kernel on every run (live_name cases)"]
 ASSUMPTIONS = ["every psutil call is atomic with respect to kernel events; in the theorems generators interleave at yield points (two "
@@ -1297,7 +1301,13 @@ MANIFEST = {
             "cache_clear() empties it; after is_running() found an object recycled (also mid-iteration) no generator entered later yields it, "
             "whatever the interleaving (repaired by b70d950; the refutation of the code before it is kept in C04/Legacy.v). Text level: the procfs-root filter and the Tgid scan return the kernel's values for every "
             "printed listing / status file. Tied to the code by running the real psutil over a fake /proc on generated histories.",
-    "note": "Trusted: Coq kernel + vm_compute; hand-written model coq/C04/Model.v (tied by the correspondence run only); harness "
+    "note": "Round 2: the if/elif/else chain of psutil.pid_exists(), the prologue of process_iter() (copy, set(pids()), set(pmap.keys()), "
+            "a - b, b - a, eviction loop, _pids_reused drain, sorted merge) and its loop body (guards, add(pid), as_dict, yield, except "
+            "NoSuchProcess: remove(pid)) are TRANSLATED from psutil/__init__.py of the tree under check by props/_c04_gen.py (ast, fail "
+            "closed) into programs of coq/C04/PyGen.v; theorems C04_gen_pid_exists_is_model / C04_gen_prologue_is_model / "
+            "C04_gen_loop_is_model prove the interpreters on these programs equal to the model's step(PidExists n) / gen_start / gen_loop "
+            "for all inputs, so a semantic change of those statements breaks the build and starts the search for a failing input. "
+            "Trusted: Coq kernel + vm_compute; hand-written model coq/C04/Model.v (tied by the correspondence run only); harness "
             "(fake /proc, os.kill/os.listdir replacements, identity tokens); CPython builtins. Calls are atomic w.r.t. kernel events; "
             "two threads are modelled at yield granularity only.",
 }
